@@ -408,6 +408,34 @@ static string opIsect(const vector<string>& a, bool bu)
 	return "P=" + dumpTA(P) + " m=" + dumpPairMap(m) + " names=" + names + " P2=" + dumpTA(P2) + " A=" + dumpTA(A) + " B=" + dumpTA(B);
 }
 
+static AutBase::ProductTranslMap parsePairMapTok(const string& tok)
+{
+	AutBase::ProductTranslMap m;
+	if (tok == "-") return m;
+	for (const string& e : split(tok, ',')) {
+		size_t g = e.find('>'), d = e.find('.');
+		m[std::make_pair(toN(e.substr(0, d)), toN(e.substr(d + 1, g - d - 1)))] = toN(e.substr(g + 1));
+	}
+	return m;
+}
+
+// mapsx alias <A> <B> <m0>        : Union(A, B, &m, &m) – ONE map object for both translators
+// mapsx td|bu <A> <B> <pm0>       : Intersection / IntersectionBU with a PRE-FILLED product map
+// (outside the documented contracts – the maps of Union are two dictionaries, the product map is an out-parameter; the case
+//  kind compares the library with the models of Vata/UnionIsectMaps.lean, it judges no property)
+static string opMapsX(const vector<string>& a)
+{
+	TA A = buildTA(parseTA(a.at(1))), B = buildTA(parseTA(a.at(2)));
+	if (a.at(0) == "alias") {
+		AutBase::StateToStateMap m = parseMap(a.at(3));
+		TA U = TA::Union(A, B, &m, &m);
+		return "U=" + dumpTA(U) + " m=" + dumpMap(m) + " A=" + dumpTA(A) + " B=" + dumpTA(B);
+	}
+	AutBase::ProductTranslMap m = parsePairMapTok(a.at(3));
+	TA P = a.at(0) == "bu" ? TA::IntersectionBU(A, B, &m) : TA::Intersection(A, B, &m);
+	return "P=" + dumpTA(P) + " m=" + dumpPairMap(m) + " A=" + dumpTA(A) + " B=" + dumpTA(B);
+}
+
 static string opTrim(const vector<string>& a)
 {
 	TA A = buildTA(parseTA(a.at(0)));
@@ -1826,6 +1854,7 @@ static string runCase(const string& kind, const vector<string>& args)
 	if (kind == "uniondisj") return opUnionDisj(args);
 	if (kind == "isect") return opIsect(args, false);
 	if (kind == "isectbu") return opIsect(args, true);
+	if (kind == "mapsx") return opMapsX(args);
 	if (kind == "trim") return opTrim(args);
 	if (kind == "cand") return opCand(args);
 	if (kind == "reduce") return opReduce(args);
